@@ -213,6 +213,18 @@ fn replay_inner(id: &str, hist: &[Json]) -> Json {
                     funcs.push(Some(f));
                     json!({"outcome": "ok", "out_valid": true, "written": []})
                 }
+                "findadd" => {
+                    let (p, r) = (vts(&e["p"]), vts(&e["r"]));
+                    let before: Vec<TypeId> = m.types.iter().map(|t| t.id()).collect();
+                    let found = m.types.find(&p, &r);
+                    let added = m.types.add(&p, &r);
+                    // find reports the type add returns, or nothing when add makes a new one
+                    let agree = match found {
+                        Some(x) => x == added,
+                        None => !before.contains(&added),
+                    };
+                    json!({"outcome": "ok", "out_valid": true, "written": [], "agree": agree, "found": found.is_some()})
+                }
                 "delete" => {
                     let k = e["f"].as_u64().unwrap() as usize;
                     if let Some(f) = funcs[k] {
